@@ -26,14 +26,22 @@ STANDING_ASSUMPTIONS = [
 ]
 
 
-def load_units():
+def load_units(only=None):
     units = {}
     udir = os.path.join(ROOT, "units")
     for f in sorted(os.listdir(udir)):
         if f.endswith(".py") and not f.startswith("_"):
-            m = importlib.import_module("units." + f[:-3])
-            units[m.NAME] = m
+            if only and f[:-3] != only:
+                continue
+            try:
+                m = importlib.import_module("units." + f[:-3])
+                units[m.NAME] = m
+            except Exception as e:  # a unit that does not even load is reported when its property is checked
+                BROKEN_UNITS[f[:-3]] = "%s: %s" % (type(e).__name__, e)
     return units
+
+
+BROKEN_UNITS = {}
 
 
 def load_known():
@@ -298,9 +306,14 @@ def main(argv):
     if args.setup:
         from . import kani
         return kani.setup(REPO)
-    units = load_units()
+    units = load_units(only=args.unit)
     if args.unit:
+        if args.unit not in units:
+            print("cannot load unit %s: %s" % (args.unit, BROKEN_UNITS.get(args.unit, "not found")))
+            return 2
         return dev_unit(args.unit, units, args)
+    for name, err in BROKEN_UNITS.items():
+        print("warning: unit %s does not load: %s" % (name, err))
     if args.replay:
         from . import triage
         return triage.replay_file(args.replay, units, REPO)
